@@ -131,6 +131,30 @@ static void do_line(char *work, const char *orig) {
 		printf("%d ", res);
 		if (res == KSI_OK) puthex(stdout, buf, len); else putchar('-');
 		KSI_TLV_free(t); free(buf);
+	} else if (n == 4 && strcmp(w[0], "wb") == 0) {
+		/* KSI_TLV_writeBytes with options: 1 = no header, 2 = leave the octets at the end of the buffer */
+		KSI_TLV *t; size_t room = (size_t)strtoull(w[2], NULL, 10), len = 0; int res, opt = atoi(w[3]);
+		unsigned char *buf = (unsigned char *)malloc(room ? room : 1);
+		memset(buf, 0xa5, room ? room : 1);
+		pp = w[1]; t = parse_tlv();
+		if (t == NULL) { printf("BUILD-FAILED"); free(buf); return; }
+		res = KSI_TLV_writeBytes(t, buf, room, &len, opt);
+		printf("%d ", res);
+		if (res == KSI_OK && len <= room) puthex(stdout, (opt & KSI_TLV_OPT_NO_MOVE) ? buf + room - len : buf, len);
+		else if (res == KSI_OK) printf("LENGTH-BEYOND-BUFFER");
+		else putchar('-');
+		KSI_TLV_free(t); free(buf);
+	} else if (n == 3 && strcmp(w[0], "reraw") == 0) {
+		/* an element built with sub elements is given a plain value afterwards */
+		KSI_TLV *t; size_t len = 0, bl; unsigned char *b = unhex(w[2], &bl); int res;
+		unsigned char *buf = (unsigned char *)malloc(70000);
+		pp = w[1]; t = parse_tlv();
+		if (t == NULL) { printf("BUILD-FAILED"); free(buf); free(b); return; }
+		res = KSI_TLV_setRawValue(t, b, bl);
+		if (res == KSI_OK) res = KSI_TLV_serialize_ex(t, buf, 70000, &len);
+		printf("%d ", res);
+		if (res == KSI_OK) puthex(stdout, buf, len); else putchar('-');
+		KSI_TLV_free(t); free(buf); free(b);
 	} else if (n == 3 && strcmp(w[0], "elser") == 0) {
 		KSI_TlvElement *t; size_t room = (size_t)strtoull(w[2], NULL, 10), len = 0; int res;
 		unsigned char *buf = (unsigned char *)malloc(room ? room : 1);
